@@ -3,8 +3,9 @@ import Proofs.Lemmas.C16BMeaning
 /-! C16B: the output *format* of `BezPath::write_to` (svg.rs: `M{},{}`, `L{},{}`, `Q{},{} {},{}`, `C{},{} {},{} {},{}`, `Z`,
     elements separated by one space) as a byte-list function `c16b_write`, parametrised by the number printer `spell`; it is a
     well-formed spelling (`c16b_wSpelled`) of the command list `els.map c16b_ofEl`, whose meaning is `els` again when every
-    `ClosePath` is followed by a `MoveTo` or the end.  NOTE: `c16b_write` is defined here, by reading the Rust source – there is no
-    model of `write_to` in `Kurbo/Svg.lean` and nothing ties `spell` to Rust's `Display for f64`. -/
+    `ClosePath` is followed by a `MoveTo` or the end.  NOTE: `c16b_write` is defined here, by reading the Rust source; the model of
+    `write_to` is `svgWrite` (`Kurbo/SvgWrite.lean`), proved equal to `c16b_write` in `Proofs/C16W.lean`.  Nothing ties `spell` to
+    Rust's `Display for f64` (checked numeral by numeral in the correspondence stratum `writer`). -/
 set_option linter.unusedSectionVars false
 namespace Kurbo
 
